@@ -371,4 +371,54 @@ example : decrypt toyAE (7 : UInt8) ((encrypt toyAE (7 : UInt8) (List.replicate 
 example : decodeFile toyAE toyZstd (7 : UInt8) (encodeFile toyAE toyZstd true (7 : UInt8) (List.replicate 16 1) [104, 105]) = .ok [104, 105] := by
   decide
 
+/-! ### copy between repositories: "encrypted and authenticated with THE REPOSITORY's master key" -/
+
+/-- (10) Every blob stored in a repository decrypts under THAT repository's key — for every history of commands on two
+repositories `a`, `b` with their own keys (any keys, equal or not; any compression settings, changed at any time): commands
+that store new blobs (`Packer::add` → `process_data` under the repository's key), `copy` of any list of blob ids in either
+direction (`BlobCopier::copy`: decode with the SOURCE key, re-encode with the DESTINATION key; blobs already present are
+skipped, a decode error aborts the command with what was packed so far left in place), compression changes; any stream of
+16-byte nonces.  The keys never change.  Tied to the real `copy` by the `hist` / `scan` oracles of harness/src/c04.rs: after a
+copy into a repository with another master key (and the source's chunker parameters) every blob the destination's index lists
+must decode with the destination's key and must NOT decode with the source's; every file reads back; `check --read-data`. -/
+theorem stored_blob_decrypts_under_own_key (ae : AE) (z : Zstd) (nonce : Nat → Bytes) (hn : ∀ i, (nonce i).length = 16)
+    (s : TwoRepos ae) (h : s.OwnKey) (cmds : List CopyCmd) :
+    (∀ b ∈ (runCopy ae z nonce s cmds).a.blobs, ∃ p, decrypt ae s.a.key b.bytes = .ok p) ∧
+    (∀ b ∈ (runCopy ae z nonce s cmds).b.blobs, ∃ p, decrypt ae s.b.key b.bytes = .ok p) := by
+  obtain ⟨⟨ha, hb⟩, ka, kb⟩ := runCopy_own ae z nonce hn cmds s h
+  exact ⟨fun b hb' => ka ▸ ha b hb', fun b hb' => kb ▸ hb b hb'⟩
+
+/-- (10, from scratch) … in particular for two freshly initialised repositories (no blobs) with keys `ka`, `kb`. -/
+theorem stored_blob_decrypts_under_own_key_from_init (ae : AE) (z : Zstd) (nonce : Nat → Bytes)
+    (hn : ∀ i, (nonce i).length = 16) (ka kb : ae.Key) (za zb : Bool) (cmds : List CopyCmd) :
+    let s := runCopy ae z nonce ⟨⟨ka, za, []⟩, ⟨kb, zb, []⟩, 0⟩ cmds
+    (∀ b ∈ s.a.blobs, ∃ p, decrypt ae ka b.bytes = .ok p) ∧ (∀ b ∈ s.b.blobs, ∃ p, decrypt ae kb b.bytes = .ok p) :=
+  stored_blob_decrypts_under_own_key ae z nonce hn ⟨⟨ka, za, []⟩, ⟨kb, zb, []⟩, 0⟩
+    ⟨fun _ h => (nomatch h), fun _ h => (nomatch h)⟩ cmds
+
+/-- (10') … and the copy keeps the content: a blob that decodes to `data` in the source decodes to `data` in the destination,
+under the destination's key and whatever the two compression settings are (hypothesis of `blob_codec_roundtrip_partial`:
+not the empty blob under compression). -/
+theorem copied_blob_keeps_content (ae : AE) (z : Zstd) (src dst : BlobRepo ae) (nonce : Bytes) (hn : nonce.length = 16)
+    (id : Nat) (b : StoredBlob) (data : Bytes) (hget : src.get id = some b) (hnew : dst.has id = false)
+    (hdec : decodeBlob ae z src.key b.bytes b.ulen = .ok data) (hpre : data ≠ [] ∨ dst.zstdOn = false) :
+    ∃ dst', copyOne ae z src dst nonce id = .ok dst' ∧ ∃ b', dst'.blobs = dst.blobs ++ [b'] ∧ b'.id = id ∧
+      decodeBlob ae z dst.key b'.bytes b'.ulen = .ok data := by
+  refine ⟨dst.store ae z nonce id data, ?_, ?_⟩
+  · simp [copyOne, hnew, hget, hdec]
+  · refine ⟨⟨id, (encodeBlob ae z dst.zstdOn dst.key nonce data).1, (encodeBlob ae z dst.zstdOn dst.key nonce data).2.2⟩, ?_, rfl, ?_⟩
+    · simp [BlobRepo.store, hnew]
+    · exact (blob_codec_roundtrip_partial ae z dst.zstdOn dst.key nonce data hn hpre).1
+
+/-- (10'') The re-encryption is what makes it true (seed C04-6: data blobs transferred raw, `copy_fast`, when the chunker
+parameters match): with the toy instance, a blob stored under key 7 and transferred AS IT IS into a repository with key 9 does
+not decrypt there — while the real `copyOne` yields one that does. -/
+theorem raw_copy_breaks_it :
+    let src : BlobRepo toyAE := (BlobRepo.store toyAE toyZstd ⟨(7 : UInt8), false, []⟩ (List.replicate 16 1) 5 [1, 2, 3])
+    let dst : BlobRepo toyAE := ⟨(9 : UInt8), false, []⟩
+    ((copyOneRaw src dst 5).blobs.map fun b => decrypt toyAE (9 : UInt8) b.bytes) = [.error .mac] ∧
+    ((copyOne toyAE toyZstd src dst (List.replicate 16 2) 5).toOption.map fun d =>
+        d.blobs.map fun b => decrypt toyAE (9 : UInt8) b.bytes) = some [.ok [1, 2, 3]] := by
+  decide
+
 end Rustic.Props.C04
